@@ -32,7 +32,9 @@ pub const COMBOS: &[[u8; 4]] = &[
 ];
 pub const SEVERITIES: &[(&str, u64)] = &[("", 1), ("error", 1), ("warning", 2), ("info", 3), ("hint", 4), ("WARNING", 2), ("Hint", 4)];
 pub const CODES: [&str; 4] = ["keep-sorted", "keep-unique", "line-pattern", "line-count"];
-const FILES: &[&str] = &["x.py", "d/y.py"];
+// The first name holds a backslash (a legal file-name character on Unix): it differs from the second
+// only by `\` versus `/`, so a report keyed by a "normalised" path would merge the two files.
+const FILES: &[&str] = &["d\\y.py", "d/y.py"];
 
 #[derive(Clone, Debug)]
 pub struct BlockSpec {
@@ -239,7 +241,7 @@ fn check_orders(seq: &[u16], sink: &Sink) -> u64 {
 }
 
 pub fn run(cfg: &Cfg, sink: &Arc<Sink>) -> Report {
-    let mut report = Report::new("states = repositories of ≤2 (thorough ≤3) blocks; a block = file ∈ {x.py, d/y.py} × rule combination (11 combinations of sorted/unique/pattern/count, each absent, satisfied or violated, built so that exactly the intended rules are violated) × severity ∈ {unset, error, warning, info, hint, WARNING, Hint}; each state is written to a scratch repository and run through the real CLI (scan mode and `list`): exit status 1 iff an error-severity diagnostic is expected, stderr one JSON object holding every expected (file, block, code, severity) exactly once with root-relative keys and well-formed entries, nothing printed without diagnostics, `list` prints all blocks and exits 0; the same states are run through the library under every block-map order and every order of the validator thread bodies (E2) for the exactly-once clause; non-trivial = every non-empty repository");
+    let mut report = Report::new("states = repositories of ≤2 (thorough ≤3) blocks; a block = file ∈ {`d\\y.py` (backslash in the name), d/y.py} × rule combination (11 combinations of sorted/unique/pattern/count, each absent, satisfied or violated, built so that exactly the intended rules are violated) × severity ∈ {unset, error, warning, info, hint, WARNING, Hint}; each state is written to a scratch repository and run through the real CLI (scan mode and `list`): exit status 1 iff an error-severity diagnostic is expected, stderr one JSON object holding every expected (file, block, code, severity) exactly once with root-relative keys and well-formed entries, nothing printed without diagnostics, `list` prints all blocks and exits 0; the same states are run through the library under every block-map order and every order of the validator thread bodies (E2) for the exactly-once clause; non-trivial = every non-empty repository");
     report.assume("which rules a block violates is fixed by construction (C06–C09 decide the rule semantics)");
     let cfg2 = cfg.clone();
     let max = cfg.tier.pick(2, 3);
